@@ -68,6 +68,47 @@ func eximsimExec(r *Run) {
 	r.Cfg["chain"] = len(lc)
 	r.Cfg["stored"] = len(h.m.Headers)
 	nonLongest := len(h.m.Headers) - len(lc)
+	// ---------------- an earlier export that failed part-way (its target directory does not exist): the export
+	// that follows, of a SHORTER store, must not be influenced by what the failed one left in the temp directory
+	if t.Chance(1, 3, "failed-export-before") && len(lc) >= 4 {
+		r.Step++
+		w.Cfg.Db.PreparedDbFilePath = "no-such-dir/export.csv.gz"
+		err := database.ExportHeaders(w.Cfg, &w.Log)
+		r.Logf("export into a missing directory -> err=%v", err != nil)
+		r.Fault("failed-export-before")
+		// store B: a strict prefix of the longest chain, in its own database
+		k := t.Range(1, len(lc)-2, "prefix-store-len")
+		bw := &World{R: r, Dir: w.Dir, DBPath: filepath.Join(w.Dir, "prefix.db"), Sniffer: &panicSniffer{}}
+		bw.Log = w.Log
+		copyFile(templateDB, bw.DBPath)
+		bw.Cfg = baseConfig(bw.DBPath)
+		bw.Open()
+		for _, x := range lc[1 : k+1] {
+			if _, err := bw.Svc.Chains.Add(toSource(x.Raw)); err != nil {
+				Infra("prefix store: %v", err)
+			}
+		}
+		bw.Close()
+		bw.Cfg.Db.PreparedDbFilePath = "prefix.csv.gz"
+		if err := database.ExportHeaders(bw.Cfg, &bw.Log); err != nil {
+			r.Fail("C17", "export-failed", "after-failed-export", "ExportHeaders failed: %v", err)
+		}
+		rawB, _ := os.ReadFile(filepath.Join(w.Dir, "prefix.csv.gz"))
+		csvB, err := gunzipBytes(rawB)
+		recsB, err2 := csv.NewReader(bytes.NewReader(csvB)).ReadAll()
+		if err != nil || err2 != nil || len(recsB) != k+2 {
+			r.Fail("C17", "export-content", "after-failed-export", "after an earlier export had failed, the export of a store with a longest chain of %d headers produced %d records (gzip err %v, csv err %v)", k+1, len(recsB)-1, err, err2)
+		}
+		for i, x := range lc[:k+1] {
+			rec := recsB[i+1]
+			if rec[1] != x.Raw.Merkle.String() || rec[2] != fmt.Sprint(x.Raw.Nonce) {
+				r.Fail("C17", "export-content", "after-failed-export|row", "record %d of the export is %v, the store has merkle %s nonce %d at that height", i, rec, x.Raw.Merkle, x.Raw.Nonce)
+			}
+		}
+		if bw.ro != nil {
+			_ = bw.ro.Close()
+		}
+	}
 	// ---------------- export
 	expFile := "export.csv.gz"
 	w.Cfg.Db.PreparedDbFilePath = expFile
